@@ -1,0 +1,18 @@
+//go:build verif
+
+package client
+
+// Machine-checked contracts (comment-only; compiled only with -tags verif).
+
+// Routing: the island is computed from the name the caller passed (not from a re-parsed or
+// otherwise derived name) with the client's island count, and the connection registered for
+// exactly that island is returned.
+//@ func (*client).GetServiceClient(c, swampName) (svc)
+//@   property C20
+//@   modifies *
+//@   ensures[island_of_given_name] calls("Name.GetIslandID") == old(calls("Name.GetIslandID")) + 1 && calledwith("Name.GetIslandID", 0, swampName) && calledwith("Name.GetIslandID", 1, old(c.allIslands))
+
+//@ func (*client).GetServiceClientAndHost(c, swampName) (svc)
+//@   property C20
+//@   modifies *
+//@   ensures[island_of_given_name] calls("Name.GetIslandID") == old(calls("Name.GetIslandID")) + 1 && calledwith("Name.GetIslandID", 0, swampName) && calledwith("Name.GetIslandID", 1, old(c.allIslands))
